@@ -132,6 +132,44 @@ if not fail:
             exp = tree_of(p, cleaned)
             if got[0] == 'ok' and exp[0] == 'ok' and got[1] != exp[1]:
                 note('resume-after-error', {'grammar': g, 'text': text}, str(got[1]), 'parse(%r) = %s' % (cleaned, exp[1]))
+# a token rejected in the middle of a reduction chain (LALR-merged look-ahead): the error state, resumed or forked, continues like a parse
+# of the input without the rejected token.  The inlined left-recursive rule extends its first child's list in place, so anything that
+# re-runs or rewinds reductions shows up as duplicated or missing children.
+GM = 'start: X _items B | Y _items C\n_items: _items A | A\nX: "x"\nY: "y"\nA: "a"\nB: "b"\nC: "c"'
+pm = Lark(GM, parser='lalr')
+skip = lambda e: isinstance(e, UnexpectedToken) and e.token.type != '$END'
+for opener, closer, wrong in (('x', 'b', 'c'), ('y', 'c', 'b')):
+    for n in range(1, 5):
+        good = opener + 'a' * n + closer
+        exp = pm.parse(good)
+        for k in range(1, n + 1):
+            bad = opener + 'a' * k + wrong + 'a' * (n - k) + closer
+            evals += 1; distinct += 1
+            try:
+                got = pm.parse(bad, on_error=skip)
+            except Exception as e:
+                got = 'raised %s' % type(e).__name__
+            if got != exp:
+                note('resume-mid-reduction', {'grammar': GM, 'text': bad, 'on_error': 'skip the rejected token'}, str(got), 'parse(%r) = %s' % (good, exp))
+        # fork taken at the error state, and the original, both continue independently to the right result
+        ip = pm.parse_interactive()
+        for ch in opener + 'a' * n:
+            ip.feed_token(Token(ch.upper(), ch))
+        try:
+            ip.feed_token(Token(wrong.upper(), wrong)); rejected = False
+        except UnexpectedToken:
+            rejected = True
+        if rejected:
+            evals += 1
+            fork = ip.copy()
+            res = []
+            for p_ in (fork, ip):
+                try:
+                    p_.feed_token(Token(closer.upper(), closer)); res.append(p_.feed_eof())
+                except Exception as e:
+                    res.append('raised %s' % type(e).__name__)
+            if res != [exp, exp]:
+                note('fork-at-error-state', {'grammar': GM, 'fed': opener + 'a' * n, 'rejected': wrong, 'then': closer}, [str(r) for r in res], str(exp))
 res = {'fails': bool(fails), 'evaluations': evals, 'distinct': distinct, 'failures': fails}
 if fail: res.update(input=fail['input'], observed=fail['observed'], required=fail['required'])
 print(json.dumps(res, default=str))
